@@ -84,6 +84,7 @@ type c01cfg struct {
 	clients int
 	shortT  bool // deploy timeout 1.3s, drain timeout 4.7s (instead of 5.3s / 2.1s): the two must not be confused
 	longT   bool // deploy timeout 61.3s (longer than a minute)
+	other   bool // while the command waits, another service is deployed with a probe timeout three times as long
 }
 
 func (c c01cfg) timeouts() (time.Duration, time.Duration) {
@@ -108,6 +109,9 @@ func (c c01cfg) String() string {
 	if c.longT {
 		r += " T=61.3s"
 	}
+	if c.other {
+		r += " other-deploy-with-longer-probe-timeout"
+	}
 	return r
 }
 
@@ -122,10 +126,10 @@ func c01Configs(tier string) []c01cfg {
 	for _, x := range cps {
 		// n = 1: every script
 		for _, s := range scripts {
-			cfgs = append(cfgs, c01cfg{x.cmd, x.pre, []pscript{s}, 1, false, false})
+			cfgs = append(cfgs, c01cfg{x.cmd, x.pre, []pscript{s}, 1, false, false, false})
 			// deploy timeout shorter than the drain timeout: scripts turning healthy between the two
 			if s.firstOK >= 0 && s.firstOK <= 2*vI {
-				cfgs = append(cfgs, c01cfg{x.cmd, x.pre, []pscript{s}, 1, true, false})
+				cfgs = append(cfgs, c01cfg{x.cmd, x.pre, []pscript{s}, 1, true, false, false})
 			}
 		}
 		// n = 2: full product in thorough; in quick "ok" x every script and the
@@ -143,13 +147,13 @@ func c01Configs(tier string) []c01cfg {
 				if tier == "quick" && x.pre == "rollout" && !(i == 0 || j == 0) {
 					continue
 				}
-				cfgs = append(cfgs, c01cfg{x.cmd, x.pre, []pscript{a, b}, 1, false, false})
+				cfgs = append(cfgs, c01cfg{x.cmd, x.pre, []pscript{a, b}, 1, false, false, false})
 			}
 		}
 		// n = 3: exactly one bad target in each position, and all ok
 		if tier != "quick" || x.pre == "active" {
 			ok := scripts[0]
-			cfgs = append(cfgs, c01cfg{x.cmd, x.pre, []pscript{ok, ok, ok}, 1, false, false})
+			cfgs = append(cfgs, c01cfg{x.cmd, x.pre, []pscript{ok, ok, ok}, 1, false, false, false})
 			for _, s := range scripts[1:] {
 				if tier == "quick" && !(strings.HasPrefix(s.name, "never-500") || s.name == "1x500-then-ok" || s.name == "ok-at-T+0.1") {
 					continue
@@ -157,7 +161,7 @@ func c01Configs(tier string) []c01cfg {
 				for pos := 0; pos < 3; pos++ {
 					sc := []pscript{ok, ok, ok}
 					sc[pos] = s
-					cfgs = append(cfgs, c01cfg{x.cmd, x.pre, sc, 1, false, false})
+					cfgs = append(cfgs, c01cfg{x.cmd, x.pre, sc, 1, false, false, false})
 				}
 			}
 		}
@@ -174,6 +178,14 @@ func c01Configs(tier string) []c01cfg {
 	for _, s := range []pscript{scripts[0], {"never-500", []memnet.ProbeStep{p500()}, -1}, lateAt("ok-at-61.1", 61, 100*time.Millisecond), lateAt("ok-at-61.4", 61, 400*time.Millisecond)} {
 		cfgs = append(cfgs, c01cfg{cmd: "deploy", pre: "active", scripts: []pscript{s}, clients: 1, longT: true})
 		cfgs = append(cfgs, c01cfg{cmd: "rollout", pre: "rollout", scripts: []pscript{s}, clients: 1, longT: true})
+	}
+	// another service, with a longer probe timeout, is deployed while the command waits for targets that answer 2xx
+	// more slowly than their own probe timeout (so every probe of theirs fails)
+	for _, s := range scripts {
+		if strings.Contains(s.name, "slow") {
+			cfgs = append(cfgs, c01cfg{cmd: "deploy", pre: "absent", scripts: []pscript{s}, clients: 1, other: true})
+			cfgs = append(cfgs, c01cfg{cmd: "rollout", pre: "rollout", scripts: []pscript{s}, clients: 1, other: true})
+		}
 	}
 	if tier != "quick" {
 		n := len(cfgs)
@@ -244,6 +256,17 @@ func c01Scenario(c c01cfg) *Scenario {
 			w.Do(ReqSpec{ID: "post-plain", Host: host})
 			w.Do(ReqSpec{ID: "post-cookie", Host: host, Cookie: "kamal-rollout=v"})
 		})
+		if c.other {
+			wg.Add(1)
+			w.AddTarget("za:80")
+			vsched.GoTagged("cmd", func() {
+				defer wg.Done()
+				time.Sleep(300 * time.Millisecond)
+				a := deployArgs("s9", []string{"za:80"}, []string{"z.example.com"}, nil)
+				a.TargetOptions.HealthCheckConfig.Timeout = 3 * vProbeTO
+				w.Deploy(a)
+			})
+		}
 		for k := 0; k < c.clients; k++ {
 			wg.Add(1)
 			k := k
@@ -283,7 +306,7 @@ func c01Scenario(c c01cfg) *Scenario {
 		evs := w.Net.Events()
 		var cmd *CmdObs
 		for _, x := range w.Cmds {
-			if x.Thread != "m" {
+			if x.Thread != "m" && !strings.Contains(x.Args, "s9") {
 				cmd = x
 			}
 		}
